@@ -215,6 +215,13 @@ def _apply(scratch: Path, edits) -> bool:
                 s = p.read_text()
                 if e["transform"] == "unparse":
                     s2 = ast.unparse(ast.parse(s)) + "\n"
+                elif e["transform"] == "reverse_keywords":
+                    tree = ast.parse(s)
+                    for n in ast.walk(tree):
+                        if isinstance(n, ast.Call) and len(n.keywords) > 1 \
+                                and all(k.arg is not None for k in n.keywords):
+                            n.keywords = list(reversed(n.keywords))
+                    s2 = ast.unparse(tree) + "\n"
                 elif e["transform"] == "rename_all_locals":
                     s2 = _rename_all_locals(s)
                 else:
